@@ -45,7 +45,7 @@ def step (d : DState) (line : String) : DState × Option String :=
     match d.ty? tid, toVal v, parseRefs refs with
     | some t, some v, some rs =>
       match encode t v { refs := rs } with
-      | .ok (bs, h) => (d, some s!"ok {toHex bs} {size t v} {showIntList h.pushed}")
+      | .ok (bs, h) => (d, some s!"ok {toHex bs} {size t v} {showIntList (h.pushed.map (·.1))}")
       | .error e => (d, some s!"err {e.name}")
     | _, _, _ => (d, some "bad-op")
   | some [.atom "dec", .atom tid, .atom rd, .atom hex, prior, .atom hs] =>
